@@ -11,8 +11,8 @@ DISTINCT_RULE = (
     "matching (aggressive multi-level, passive, SP, reduced after removals) or full-match twins; distinct = (market type, runner result, order type, side, "
     "dead-heat k, #fragments<=3) cells compared with the first-principles settlement calculator"
 )
-RULES = ["order-profit", "avg-price", "twin", "cleared-market"]
-MINIMA = {"quick": {"rule_order-profit": 4000, "rule_twin": 300, "rule_cleared-market": 1000}, "thorough": {"rule_order-profit": 150000}}
+RULES = ["order-profit", "avg-price", "twin", "cleared-market", "paper-cleared-market", "paper-order-profit"]
+MINIMA = {"quick": {"rule_order-profit": 4000, "rule_twin": 300, "rule_cleared-market": 1000, "rule_paper-cleared-market": 200, "paper_polls_with_two_markets": 100}, "thorough": {"rule_order-profit": 150000}}
 ASSUMPTIONS = [
     "settlement rules as stated in the property (win/lose, removed = 0, one-winner dead heat, each-way terms, even-money lines)",
     "tolerance 0.005*matched*(1+1/d)+0.01 because flumine settles on a 2-dp average price",
@@ -24,7 +24,8 @@ def plan(tier, seed):
     n = 6000 if tier == "quick" else 70000
     # directed case for the listed finding C08-line-tie (struck line == result, both sides on one fill)
     # ... and for C08-line-struck-at-zero (a bet struck at the line 0.0)
-    return [{"seed": seed, "idx": 0, "kind": "line", "force_tie": True}, {"seed": seed, "idx": 1, "kind": "line", "force_zero": True}] + [{"seed": seed, "idx": i, "kind": KINDS[i % len(KINDS)]} for i in range(2, n)]
+    paper = [{"seed": seed, "idx": i, "kind": "paper"} for i in range(150 if tier == "quick" else 2500)]
+    return [{"seed": seed, "idx": 0, "kind": "line", "force_tie": True}, {"seed": seed, "idx": 1, "kind": "line", "force_zero": True}] + [{"seed": seed, "idx": i, "kind": KINDS[i % len(KINDS)]} for i in range(2, n)] + paper
 
 
 def _clients(rng):
@@ -133,7 +134,138 @@ def build(desc):
     return case, {mid: snaps}
 
 
+def run_paper(desc):
+    """Paper trading: an un-run live Flumine with paper_trade clients holding orders in several open markets at once; the
+    client's simulated order stream polls between updates (its loop body is executed by the harness instead of its thread);
+    markets close in a random order and every cleared summary must equal the first-principles sum over that client's
+    matched orders in that market."""
+    import collections
+    from .. import livecases
+    from flumine.events.events import CloseMarketEvent, CurrentOrdersEvent
+    from flumine.streams.simulatedorderstream import SimulatedOrderStream, CurrentOrders
+
+    rng = simgen.mk_rng(desc["seed"], desc["idx"], 88)
+    out = O.Out(PROPERTY)
+    nc = rng.choice((1, 1, 2))
+    rates = [rng.choice((0.0, 0.02, 0.05, 0.065)) for _ in range(nc)]
+    st = livecases.make_strategy("P0")
+    tr, w = livecases.new_world([st], n_clients=nc, paper=True, commissions=rates, usernames=["paper%d" % i for i in range(nc)])
+    try:
+        streams = [SimulatedOrderStream(w.fw, stream_id=900 + i, streaming_timeout=0.25, client=c) for i, c in enumerate(w.clients)]
+        nm = rng.randint(2, 4)
+        snaps, lines_read, mids = {}, {}, []
+        for j in range(nm):
+            mid = "1.28%07d" % (desc["idx"] * 10 + j)
+            d = G.Director(rng, mid, {"market_types": ("WIN",), "winners": (1,), "n_runners": (2, 4), "close": False, "p_removal": 0.0, "p_inplay": 0.3, "depth": (2, 3), "p_bsp": 0.0, "n_steps": (6, 14)})
+            mf = d.run()
+            act = d.active_keys()
+            rng.shuffle(act)
+            k = rng.choice((1, 1, 2))
+            d.close(statuses={key: ("WINNER" if i < k else "LOSER") for i, key in enumerate(act)})
+            snaps[mid] = G.read_lines(mf.lines)
+            lines_read[mid] = -1
+            w.add_market_file(mf.write(livecases.tmpdir()))
+            mids.append(mid)
+        orders = []  # (order, market, client index)
+        closed = []
+        open_mids = list(mids)
+
+        def drain():
+            while not w.fw.handler_queue.empty():
+                ev = w.fw.handler_queue.get()
+                if isinstance(ev, CloseMarketEvent):
+                    w.fw._process_close_market(ev)
+                    closed.append(ev.event.market_id)
+                elif isinstance(ev, CurrentOrdersEvent):
+                    w.fw._process_current_orders(ev)
+
+        def poll():
+            # body of SimulatedOrderStream.run's loop
+            for s_ in streams:
+                if w.fw.markets.live_orders:
+                    cur = s_._get_current_orders()
+                    if cur:
+                        w.fw.handler_queue.put(CurrentOrdersEvent([CurrentOrders(cur, s_.client)]))
+            live_markets = sum(1 for m_ in w.fw.markets if not m_.closed and m_.blotter.has_live_orders)
+            if live_markets >= 2:
+                out.c("paper_polls_with_two_markets")
+            drain()
+
+        # first, every market gets its first book; then random interleaving
+        sequence = list(mids)
+        while open_mids:
+            mid = sequence.pop(0) if sequence else rng.choice(open_mids)
+            mb = w.next_book(mid)
+            if mb is None:
+                open_mids.remove(mid)
+                continue
+            lines_read[mid] += 1
+            drain()
+            snap = snaps[mid][lines_read[mid]]
+            if snap["status"] == "OPEN" and rng.random() < 0.6 and w.market(mid) is not None:
+                keys = [k_ for k_, r in snap["runners"].items() if r["status"] == "ACTIVE" and r["atb"] and r["atl"]]
+                if keys:
+                    key = rng.choice(keys)
+                    book = snap["runners"][key]
+                    side = rng.choice(("BACK", "LAY"))
+                    mode = rng.choice(("cross", "cross", "rest"))
+                    if side == "BACK":
+                        pr = max(book["atb"]) if mode == "cross" else min(book["atl"])
+                    else:
+                        pr = min(book["atl"]) if mode == "cross" else max(book["atb"])
+                    ci = rng.randrange(nc)
+                    o = livecases.make_order(st, mid, sel=key[0], handicap=key[1], side=side, price=pr, size=rng.choice((2.0, 5.0, 12.5)), persistence=rng.choice(("PERSIST", "LAPSE")))
+                    w.market(mid).place_order(o, client=w.clients[ci])
+                    orders.append((o, mid, ci))
+                    w.executor.run_all()
+            for _ in range(rng.choice((0, 1, 1, 2))):
+                poll()
+        poll()
+        # oracle
+        closing = {m_: next(s_ for s_ in sn if s_["status"] == "CLOSED") for m_, sn in snaps.items()}
+        exp = collections.defaultdict(list)
+        for o, mid, ci in orders:
+            frags = [(f[1], f[2]) if len(f) > 2 else tuple(f) for f in o.simulated.matched]
+            snap = closing[mid]
+            rs = snap["runners"][(o.selection_id, o.handicap)]["status"]
+            n_win = sum(1 for r in snap["runners"].values() if r["status"] == "WINNER")
+            kdh = n_win if n_win > (snap["number_of_winners"] or 1) else 1
+            e = sum(O.settle_fragment(o.side, p_, s_, rs, "WIN", kdh, 1) for p_, s_ in frags)
+            matched = sum(s_ for _, s_ in frags)
+            out.rule("paper-order-profit")
+            if abs(o.profit - e) > 0.005 * matched + 0.01:
+                out.v("profit-differs-from-settlement", {"market_type": "WIN", "result": rs, "otype": "LIMIT", "side": o.side, "dead_heat": kdh > 1, "paper": True}, order=o.id, profit=o.profit, expected=e, fills=frags)
+            if matched > 0:
+                exp[(mid, ci)].append(o.profit)
+            out.d("c08:paper:%s:%s:%d:%d" % (rs, o.side, kdh, min(len(frags), 3)))
+        per_market = collections.defaultdict(list)
+        for ev in tr.logs:
+            if ev["type"] == "CLEARED_MARKETS":
+                for pl in ev.get("payload") or ():
+                    per_market[pl["market_id"]].append(pl)
+        for mid in mids:
+            evs = per_market.get(mid, [])
+            if len(evs) != nc:
+                out.v("cleared-summary-count-differs", {"paper": True}, market=mid, got=len(evs), clients=nc)
+                continue
+            for ci, pl in enumerate(evs):
+                out.rule("paper-cleared-market")
+                ep = round(sum(exp.get((mid, ci), [])), 2)
+                ec = round(max(ep * rates[ci], 0), 2)
+                if abs(pl["profit"] - ep) > 0.0051 or pl["bet_count"] != len(exp.get((mid, ci), [])):
+                    out.v("cleared-summary-differs", {"field": "profit/bet_count", "paper": True}, market=mid, client=ci, payload=pl, expected_profit=ep, expected_count=len(exp.get((mid, ci), [])))
+                if abs(pl["commission"] - ec) > 0.0051 or pl["commission"] < 0:
+                    out.v("cleared-summary-differs", {"field": "commission", "paper": True}, market=mid, client=ci, payload=pl, expected=ec)
+        out.c("paper_orders", len(orders))
+        out.c("paper_matched_orders", sum(1 for o, _, _ in orders if o.size_matched > 0))
+    finally:
+        livecases.finish(w)
+    return out.result(sample={"desc": desc, "orders": len(orders), "markets": nm, "clients": nc} if desc["idx"] < 2 else None)
+
+
 def run(desc):
+    if desc["kind"] == "paper":
+        return run_paper(desc)
     case, snaps = build(desc)
     tr = simrun.run_case(case)
     out = O.Out(PROPERTY)
